@@ -28,7 +28,7 @@ from antlr4 import *
 from .aggregator import DocumentationAggregator
 from cminx import Settings
 from .documentation_types import DocumentationType, ModuleDocumentation
-from .parser import ParserErrorListener, LexerErrorListener
+from .parser import ParserErrorListener, LexerErrorListener, CMakeSyntaxError
 from .parser.CMakeLexer import CMakeLexer
 from .parser.CMakeParser import CMakeParser
 from .rstwriter import RSTWriter, Directive
@@ -112,7 +112,13 @@ class Documenter(object):
 
         # Parse and lex the file, then walk the tree and aggregate the
         # documented commands
-        self.walker.walk(self.aggregator, self.parser.cmake_file())
+        tree = self.parser.cmake_file()
+        if self.parser.getNumberOfSyntaxErrors() > 0:
+            # Error recovery inside nested parser rules swallows the exception raised by the listener
+            raise CMakeSyntaxError(
+                f"{self.parser.getNumberOfSyntaxErrors()} syntax error(s) detected while parsing"
+            )
+        self.walker.walk(self.aggregator, tree)
 
         # All the documented commands are now stored in aggregator.documented,
         # each element is a namedtuple representing the type of documentation it is.
